@@ -639,12 +639,24 @@ def gen_world(rng, tier, focus='C07'):
     if rng.random() < 0.05:
         req.append(req[0])
     scn['requested'] = req
+    if rng.random() < 0.12:
+        # a module kept in a file named unlike it (e.g. vendor-mib holding VENDOR-MIB) and requested by that file name
+        m_ = rng.choice(names)
+        if m_ not in scn['files'] and all(m_ not in v for v in scn['files'].values()):
+            alias = m_.lower().replace('-mib', '') + '-file'
+            scn['files'][alias] = [m_]
+            scn['file_alias'] = {alias: m_}
+            scn['requested'] = [alias if x == m_ else x for x in req]
+            if alias not in scn['requested']:
+                scn['requested'].append(alias)
     # sources
     ns = rng.choice([1, 1, 2, 2, 3])
     sources = [{'holds': {}, 'base': 'none', 'mtime': core.EPOCH0 - rng.choice([0, 1, 50, 5000])} for _ in range(ns)]
-    for name in names:
+    for name in names + sorted(scn.get('file_alias', {})):
         if name in scn.get('co_only', ()):
             continue
+        if name in scn.get('file_alias', {}).values():
+            continue        # lives only in its alias file
         holders = [i for i in range(ns) if rng.random() < 0.6]
         if not holders and rng.random() < 0.85:
             holders = [rng.randrange(ns)]
@@ -655,7 +667,7 @@ def gen_world(rng, tier, focus='C07'):
             elif r < 0.86:
                 h = {'o': 'error'}
             else:
-                h = {'o': 'ok', 'variants': {name: rng.choice(mibgen.DEFECTS)}}
+                h = {'o': 'ok', 'variants': {scn.get('file_alias', {}).get(name, name): rng.choice(mibgen.DEFECTS)}}
             sources[i]['holds'][name] = h
     r = rng.random()
     if r < 0.80:
@@ -744,7 +756,7 @@ def gen_world(rng, tier, focus='C07'):
         scn.pop('inject', None)
         scn.pop('writer_fail', None)
         scn['codegen'] = 'json'
-        scn['files'] = {}
+        scn['files'] = {k: v for k, v in scn['files'].items() if k in scn.get('file_alias', {})}
         scn.pop('co_only', None)
         scn['listing_seed'] = rng.randrange(1 << 30)
         for s_ in scn['sources']:
